@@ -569,7 +569,7 @@ class DequeGen:
                 s0 = sims[0]
                 p_iter = {"iter": 0.12, "all": 0.05}.get(focus, 0.0)
                 p_der = {"derived": 0.15, "all": 0.05, "fault": 0.05}.get(focus, 0.0)
-                if focus == "growth" and r < 0.012:
+                if focus == "growth" and r < 0.003:
                     self.zip_self_program(rng, s0, ops, slot=0)
                 elif focus == "growth" and r < 0.85:
                     self.core_op(rng, s0, ops, only=rng.choice(["add_last", "add_first", "add_last", "add"]))
